@@ -196,6 +196,19 @@ class Specs:
         key = (fn, _ast.unparse(_ast.parse(stmt_text.strip()).body[0]))
         self.ghosts.setdefault(key, []).extend(updates.items())
 
+    def ghost_before(self, fn, stmt_text, **updates):
+        import ast as _ast
+        key = (fn, _ast.unparse(_ast.parse(stmt_text.strip()).body[0]), 'before')
+        self.ghosts.setdefault(key, []).extend(updates.items())
+
+    def ghosts_before(self, qual, node):
+        if not self.ghosts:
+            return None
+        try:
+            return self.ghosts.get((qual, ast.unparse(node), 'before'))
+        except Exception:
+            return None
+
     def ghosts_for(self, qual, node):
         if not self.ghosts:
             return None
